@@ -7,6 +7,8 @@ Static clauses (necessary conditions for confluence; the behavioural statement i
   S-KIND     each Param::apply_X substitutes only its own parameter kind (shared with C06)
   T2         compiler ops are substituted bottom-up: Node impls recurse with Node::apply (shared with C06)
   T1(Node)   Node::apply visits every Expression-bearing field (shared engine E3)
+  S-STAGES   in the resolver's pass function the compiler's built-ins are applied (Node::apply with the compiler as visitor) in
+             every round, after apply_fees and before compile - not hoisted in front of the loop
   S-PURE     stages keep no state: no mutable statics / interior mutability in tx3-tir's reduce closure
 """
 from .. import mir, e3_trav as e3
